@@ -17,9 +17,20 @@ OBJ_KINDS = ["Module", "Class", "Function", "Attribute"]
 ALL_KINDS = OBJ_KINDS + ["Alias"]
 
 
+def _forwarding(name, own):
+    def read(P_, o_):
+        if P_.resolve_cls(o_) == "Alias":
+            member = P_.find_class_member("Alias", name)
+            if member is not None and member[0] == "property":
+                return P_.call_closure(member[1], [o_], {})
+        return own(P_, o_)
+    return read
+
+
 class Heap:
-    def __init__(self, P, hook_path=True):
+    def __init__(self, P, hook_path=True, forward_alias_reads=True):
         self.P = P
+        self.forward_alias_reads = forward_alias_reads
         self.objs = []
         self.ids = []
         self.version = 0
@@ -194,6 +205,12 @@ class Heap:
         o.lazy["exports"] = lambda P_, o_: None
         o.lazy["public"] = lambda P_, o_: None
         o.lazy["inherited"] = lambda P_, o_: False
+        # An Alias has none of these of its own: the real class forwards them to its (final) target and raises what resolving it raises.  For an
+        # object whose class is (or may be) Alias the real property is run, so that code reading them from a member that happens to be an alias is
+        # checked against the alias errors exactly where they can occur.
+        if heap.forward_alias_reads:
+            for fname in ("members", "lineno", "endlineno", "exports", "imports", "_filepath"):
+                o.lazy[fname] = _forwarding(fname, o.lazy[fname])
         for k, v in fields.items():
             o.fields[k] = v
         return self._register(o)
